@@ -4,7 +4,7 @@ SPEC = {
         {"name": "c17", "pkg": "./zz_verif/c17", "run": ".", "shards": {"quick": 1, "thorough": 16}},
     ],
     "rule": "secret sharing: case = (group of P256/P384/P521/ristretto255, t, n with 0 <= t < n <= 8 (16 thorough), secret in {0,1,r-1,random}, "
-            "identifiers 1..n via Share or distinct arbitrary non-zero scalars via ShareWithID, coefficient stream, up to 3 subsets S in drawn order, up to 3 altered shares) drawn by rapid. "
+            "identifiers 1..n via Share or distinct arbitrary non-zero scalars via ShareWithID, coefficient stream, dealer reusing one identifier scalar object in place or a fresh one per call, caller overwriting the scalars passed in and the returned share / commitment objects after the calls, up to 3 subsets S in drawn order, up to 3 altered shares) drawn by rapid. "
             "non-trivial = a recovery whose subset is not the prefix {1..t+1} in order, or has more than t+1 shares, or uses non-sequential identifiers, or is an unqualified set (|S| <= t) that was refused, "
             "or an altered (value/identifier) share that is off the polynomial and was rejected. "
             "threshold RSA: case = (pool key, l in 2..30, k in 1..l, cached/uncached Deal, blinded/unblinded (parallel or not) Sign, PKCS#1 v1.5 or PSS padder with hash and salt mode, message, player subset of size >= k in drawn order, blinding chosen per signature), followed by a second message signed with the same KeyShare objects (other padding/blinding, in one third of the cases after a MarshalBinary/UnmarshalBinary round trip of the participating shares); "
